@@ -65,6 +65,8 @@ def conv(cfg, k):
         return int(k)
     if cfg.get('mixed') and cfg['chip'] == 'fraction' and cfg.get('unit_den', 1) == 1:
         return int(k)             # int amounts inside Fraction stacks (see conv_stack)
+    if cfg.get('normalized') and cfg['chip'] == 'decimal':
+        return (u * k).normalize()        # Decimal('1E+2') rather than Decimal('100'): the same value, another spelling
     return u * k
 
 
@@ -72,6 +74,8 @@ def conv_stack(cfg, k):
     u = unit_of(cfg)
     if cfg['chip'] == 'int':
         return int(k)
+    if cfg.get('normalized') and cfg['chip'] == 'decimal':
+        return (u * k).normalize()
     return u * k
 
 
@@ -180,6 +184,8 @@ def gen_config(ch, bias=None):
     cfg['unit_den'] = 1 + ch.pick('cfg.unit_den', 3) if cfg['chip'] != 'int' else 1
     if bias.get('allow_mixed') and cfg['chip'] == 'fraction' and cfg['unit_den'] == 1:
         cfg['mixed'] = bool(ch.pick('cfg.mixed', 2))
+    if bias.get('allow_normalized') and cfg['chip'] == 'decimal':
+        cfg['normalized'] = ch.chance('cfg.normalized', 1, 3)
     cfg['autos'] = pick_autos(ch, bias)
     bb = ch.choice('cfg.bb', bias.get('bbs', (2, 4, 10)))      # the small bet / min bet, in units
     cfg['bb'] = bb
@@ -358,7 +364,7 @@ def build(cfg, autos_mask=None):
         bb = conv(cfg, cfg['bb'])
         big = conv(cfg, cfg['bb'] * 2)
         if kind == 'minbet':
-            game = cls(autos, cfg['ats'], antes, blinds, bb, **kw)
+            game = cls(autos, cfg['ats'], antes, blinds, conv(cfg, cfg.get('min_bet', cfg['bb'])), **kw)
         elif kind == 'smallbig':
             game = cls(autos, cfg['ats'], antes, blinds, bb, big, **kw)
         else:
